@@ -23,6 +23,9 @@ OBLIGATIONS = [
     Ob(name='C02.O4.compat_noasync', harness=H, entry='h_compat_noasync', defines=('_LGPL_SOURCE',), unwind=4, cbmc_flags=NU, min_covers=1, checks=CK2,
        functions=('compat_futex_noasync',), desc='compat_futex_noasync: WAIT under the compat lock until the value differs; WAKE broadcasts; lock released'),
 ]
+for e, fns, d in (('h_wake_up', ('urcu_adaptative_wake_up',), 'urcu_adaptative_wake_up with the waiter acting before every access: WAKEUP (release) first; FUTEX_WAKE unless the waiter was seen RUNNING afterwards; TEARDOWN (release) is the last access to the node'),
+                  ('h_wake_all', ('urcu_wake_all_waiters',), 'urcu_wake_all_waiters on stacks of 0..3 waiters incl. the leader\'s own RUNNING node: every waiting node woken exactly once, own node skipped, successor read before a node is woken (node memory poisoned at TEARDOWN)')):
+    OBLIGATIONS.append(Ob(name='C02.O5.' + e[2:], harness='C02/waker.c', entry=e, defines=('_LGPL_SOURCE',), unwind=5, min_covers=2, checks=('--bounds-check', '--signed-overflow-check', '--div-by-zero-check'), functions=fns, timeout=300, desc=d))
 # C02.O2: updater half of the sleep/wake handshake inside the registry scans (shared with C01.O4)
 OBLIGATIONS += [o for o in _c01.OBLIGATIONS if o.name.startswith('C01.O4.')]
 # C02.O1: reader half (store of the reader word -> full barrier -> test of futex / waiting; wake-up iff needed)
